@@ -15,7 +15,7 @@ mod gen;
 pub struct C16;
 pub const CHECK: C16 = C16;
 pub fn plan(t: Tier) -> vcore::Plan {
-    vcore::Plan::new(t.pick(1_500, 20_000), 2000)
+    vcore::Plan::new(t.pick(1_500, 60_000), 2000)
 }
 
 /// in-process repetitions when the first outcome is accepted Lua / a list of errors.
@@ -593,8 +593,10 @@ impl Check for C16 {
 
     fn generate(&self, u: &mut Unstructured, _tier: Tier) -> Option<Case> {
         let mut t = Tape::new(u);
-        // known-finding avoidance: on for 80 % of the budget
-        let avoid = !t.chance(1, 5);
+        // known-finding avoidance switch (at most one erroneous member type per blob/enum, no repeated member
+        // names): off - the five findings it was made for are fixed (abb5103, ab2786e), so these shapes get full
+        // weight. To exclude a new open finding by construction set this to `!t.chance(1, 5)` again.
+        let avoid = false;
         let b = gen::build(&mut t, avoid);
         Some(Case { project: b.project, class: b.class.to_string(), planted: b.planted, avoid })
     }
@@ -738,8 +740,8 @@ impl Check for C16 {
              independent errors of one phase (blobs/enums whose member types are unresolvable / use undeclared generics / too many type \
              arguments; unresolved names with 3-8 candidates at equal edit distance; duplicate definitions; type errors in several \
              functions and chained globals; syntax errors in several lines/files; missing files; import errors; mutated corpus programs). \
-             Known-finding triggers (two or more erroneous member types inside one blob/enum; a repeated member name) are avoided by \
-             construction in 80 % of the cases. Oracle: the project is materialised in a fresh directory and compiled {} times \
+             The avoidance switch for known findings (at most one erroneous member type per blob/enum, no repeated member name) \
+             is off: no finding is open. Oracle: the project is materialised in a fresh directory and compiled {} times \
              in-process when it is accepted, {} times when it is rejected (stored cases - replays, known-finding reproducers, \
              regression seeds - {} times); every HashMap of the compiler gets a new RandomState per compile; repetition {} runs after \
              {} unrelated compilations that use the same in-memory file names, every 8th repetition on a fresh thread. All outcomes \
@@ -798,9 +800,6 @@ impl Check for C16 {
         let disc: u64 = s.discards.values().sum();
         if disc * 100 > 10 * n {
             return Err(format!("{} of {} cases discarded: {:?}", disc, n, s.discards));
-        }
-        if s.label("switch:free") * 100 < 10 * n || s.label("switch:avoid-known-triggers") * 100 < 60 * n {
-            return Err("avoid-switch split is off".into());
         }
         // (the tree may change while the run is in progress: children that start later then find the binary stale)
         if sylt_bin().is_ok() && s.label("xproc:unavailable") == 0 && s.label("xproc:compared") * 100 < 85 * s.passed {
